@@ -259,7 +259,38 @@ fn gen19_k<K: Kmer + Send + Sync>(rng: &mut Rng, k: usize, stranded: bool) -> St
         } else { (0..k).map(|_| rng.below(4) as u8).collect() };
         probes.push(format!("{}@{}", show_digits(&km), d));
     }
-    format!("C19 finish {} {} {} {} {}", k, stranded as u8, *rng.pick(&[1usize, 2, 3, 4, 8, 16]), crate::c03::nodes_with_ids(&g), probes.join(";"))
+    let mut nodes = crate::c03::nodes_with_ids(&g);
+    if k % 2 == 0 && rng.chance(1, 3) {
+        // hand-built additions around a k-mer P that is its own reverse complement: a node longer than K that starts or
+        // ends with P, and nodes whose extension towards P only the lookup of the reverse complement can resolve.
+        // (first k-mers stay distinct, last k-mers stay distinct: the two index maps need distinct keys)
+        let mut seqs: Vec<Vec<u8>> = (0..n).map(|i| g.base.sequences.get(i).bytes()).collect();
+        let mut items: Vec<String> = if n == 0 { vec![] } else { nodes.split(',').map(|x| x.to_string()).collect() };
+        let half: Vec<u8> = (0..k / 2).map(|_| rng.below(4) as u8).collect();
+        let mut p = half.clone();
+        p.extend(rc_of(&half));
+        let rnd = |rng: &mut Rng, l: usize| -> Vec<u8> { (0..l).map(|_| rng.below(4) as u8).collect() };
+        let mut cands: Vec<(Vec<u8>, u8)> = Vec::new();
+        let t = rng.range(1, 6);
+        if rng.chance(1, 2) { let mut v = p.clone(); v.extend(rnd(rng, t)); cands.push((v, 0xff)); }   // P + tail
+        else { let mut v = rnd(rng, t); v.extend(p.iter()); cands.push((v, 0xff)); }                   // head + P
+        // … x P[..k-1] with the right extension P[k-1]; and P[1..] y … with the left extension P[0]
+        { let l = rng.range(1, 4); let mut v = rnd(rng, l); v.extend(p[..k - 1].iter()); cands.push((v, 16u8 << p[k - 1])); }
+        { let l = rng.range(1, 4); let mut v = p[1..].to_vec(); v.extend(rnd(rng, l)); cands.push((v, 1u8 << p[0])); }
+        for (v, e) in cands {
+            if v.len() >= k && seqs.iter().all(|t| t[..k] != v[..k] && t[t.len() - k..] != v[v.len() - k..]) {
+                items.push(format!("{}:{:02x}:{}", show_digits(&v), e, items.len()));
+                seqs.push(v);
+            }
+        }
+        for d in ["L", "R"] { probes.push(format!("{}@{}", show_digits(&p), d)); }
+        for sq in seqs.iter().rev().take(3) {
+            probes.push(format!("{}@{}", show_digits(&sq[..k]), if rng.chance(1, 2) { "L" } else { "R" }));
+            probes.push(format!("{}@{}", show_digits(&sq[sq.len() - k..]), if rng.chance(1, 2) { "L" } else { "R" }));
+        }
+        if !items.is_empty() { nodes = items.join(","); }
+    }
+    format!("C19 finish {} {} {} {} {}", k, stranded as u8, *rng.pick(&[1usize, 2, 3, 4, 8, 16]), nodes, probes.join(";"))
 }
 
 pub fn gen19(rng: &mut Rng, tier: &str) -> String {
